@@ -87,6 +87,14 @@ func c02Strata() []*gast.Grammar {
 		// action inside an alternative that is abandoned later
 		mk(r("S", gast.C(gast.S(gast.A(gast.Lab("a", gast.Plus(gast.Cl(gast.Chars("a\n")))), 1, mon.Spec{}), gast.L("x")),
 			gast.A(gast.Lab("b", gast.Star(gast.Dot())), 2, mon.Spec{})))),
+		// an input that starts with a byte order mark: it is a rune like any other for line/col
+		mk(r("S", gast.S(gast.Opt(gast.L("\ufeff")), gast.Star(gast.C(gast.A(gast.Plus(gast.Cl(gast.Chars("ab"))), 1, mon.Spec{}), gast.A(gast.L("\n"), 2, mon.Spec{}), gast.A(gast.L("\ufeff"), 3, mon.Spec{}))), gast.AndC(4, mon.Spec{}), gast.Star(gast.Dot()))),
+			r("T", gast.A(gast.S(gast.Dot(), gast.Lab("a", gast.Star(gast.Cl(gast.Chars("ab\ufeff"))))), 5, mon.Spec{}))),
+		// labels on predicates are nil, whatever an earlier scope at the same depth bound under that name
+		mk(r("S", gast.Star(gast.S(gast.Ref("I"), gast.L(";")))),
+			r("I", gast.C(gast.A(gast.S(gast.Lab("m", gast.L("#")), gast.Lab("w", gast.Ref("W"))), 1, mon.Spec{}), gast.A(gast.S(gast.Lab("m", gast.NotE(gast.L("#"))), gast.Lab("w", gast.Ref("W"))), 2, mon.Spec{}),
+				gast.A(gast.S(gast.Lab("w", gast.AndE(gast.L("?"))), gast.Lab("m", gast.NotC(4, mon.Spec{})), gast.L("?")), 3, mon.Spec{}))),
+			r("W", gast.A(gast.Plus(gast.Cl(gast.Chars("ab"))), 5, mon.Spec{R: 2}))),
 		// a block re-reached (a cache hit under Memoize) whose match spans a newline followed by
 		// multi-byte runes; the blocks after it must see the right line and column
 		mk(r("S", gast.C(gast.S(gast.Lab("a", gast.Ref("B")), gast.L("!"), gast.A(gast.Star(gast.Dot()), 1, mon.Spec{})), gast.S(gast.Lab("a", gast.Ref("B")), gast.L("?"), gast.Lab("b", gast.Ref("T")), gast.A(gast.Star(gast.Dot()), 2, mon.Spec{})))),
@@ -320,7 +328,7 @@ func C11(c *Ctx) {
 		Profile: p, Grammars: c11Strata(), NGrammars: c.N(110, 1500),
 		FlagSets:  [][]string{{}, {"-optimize-parser"}},
 		InputsPer: c.N(80, 200), ExhaustLimit: c.N(120, 600), ExhaustLen: 6,
-		OptSets: []OptSet{{Name: "default"}, {Name: "norecover", NoRecover: true}, {Name: "file", File: "in.txt"}, {Name: "file-colon", File: "dir:a/b.x:3"}, {Name: "memoize", Memo: true}, {Name: "stats", Stats: true}},
+		OptSets: []OptSet{{Name: "default"}, {Name: "norecover", NoRecover: true}, {Name: "file", File: "in.txt"}, {Name: "file-colon", File: "dir:a/b.x:3"}, {Name: "file-percent", File: "export%20data 100%.csv"}, {Name: "memoize", Memo: true}, {Name: "stats", Stats: true}},
 		Compare: CmpErrs | CmpErrTypes | CmpVal | CmpPanic | CmpOK,
 		NonTrivial: func(m *ref.Result) bool {
 			if m.Panicked {
